@@ -1,5 +1,70 @@
 import CkbVerif.Driver.C01
-/-! C08 uses the chain-pipeline driver of C01 (ops `deliver`, `crash`, `restart`, `scan`). -/
+import CkbVerif.Gen.Restart
+/-!
+C08 uses the chain-pipeline driver of C01 (ops `blk`, `deliver`, `commits`, `crashdeliver`, `restart`,
+`scan`, `burst`) and adds (harness/n08/src/c08.rs, family `fork`):
+
+  burstcrash <ids> <i> <v>   the first `i` blocks of `ids` are handed to the chain service one after the
+                             other WITHOUT waiting for verification (`deliver`, no drain), the verify
+                             thread has completed `v` queue entries (`verify` × v), then the process dies:
+                             the persisted state                                          -> state line
+  requeued <maxEpochLen> <order|->   the blocks the start-up scan re-submits (the harness answers with the
+                             set it OBSERVED on the restarted node)                       -> ids
+  crash2 <maxEpochLen> <order|-> <observed state line, spaces written as |>
+                             second-level crash during the start-up re-verification: `crash`, every block of
+                             `scanList` re-submitted, then the process dies after SOME number v of
+                             verifications; answers the persisted state of the prefix that equals the observed
+                             one (and continues from it), else that of v = 0               -> state line
+  longchain <ids>            (family `edge`) every id delivered and verified, one after the other; the harness
+                             prepared the same chain directly in the database                 -> ok
+  consts                     the regenerated constants of the scan window                  -> mel=… expired=… bdw=…
+-/
 namespace CkbVerif.Driver.C08
-def main (args : List String) : IO UInt32 := CkbVerif.Driver.C01.main args
+open CkbVerif.Driver CkbVerif.Chain CkbVerif.Driver.C01
+
+/-- `Consensus::max_epoch_length()` = `MAX_EPOCH_LENGTH` = `DEFAULT_EPOCH_DURATION_TARGET / MIN_BLOCK_INTERVAL`
+(the shape of both expressions is pinned by `Props/C08.lean`) -/
+def maxEpochLength : Nat := Gen.Restart.DEFAULT_EPOCH_DURATION_TARGET / Gen.Restart.MIN_BLOCK_INTERVAL
+
+/-- `i` deliveries without drain, then `v` verify steps -/
+def burstState (T : Tree) (s : State) (ids : List Nat) (i v : Nat) : State :=
+  let s1 := (ids.take i).foldl (fun s b => (deliver T [] s b).1) s
+  (List.range v).foldl (fun s _ => (verifyHead T s).1) s1
+
+def step (d : St) (ts : List String) : St × String :=
+  match ts with
+  | ["burstcrash", l, i, v] =>
+    match parseNatList? l, parseNat? i, parseNat? v with
+    | some l, some i, some v =>
+      let c := crash (burstState (treeOf d.decls) (getState d) l i v)
+      ({ d with st := some c }, stateLine d.decls c [])
+    | _, _, _ => (d, "bad-op")
+  | ["longchain", l] =>
+    match parseNatList? l with
+    | some l =>
+      let T := treeOf d.decls
+      let s := l.foldl (fun s b => (deliverQ T [] s b).1) (getState d)
+      ({ d with st := some s }, "ok")
+    | none => (d, "bad-op")
+  | ["crash2", m, o, obs] =>
+    match parseNat? m, parseNatList? o with
+    | some m, some o =>
+      let T := treeOf d.decls
+      let s0 := crash (getState d)
+      let l := scanList T m o s0
+      let s1 := l.foldl (fun s b => (deliver T [] s b).1) s0
+      let want := obs.replace "|" " "
+      -- the persisted state after each prefix of the re-verification
+      let cands := (List.range (s1.queue.length + 1)).map fun v =>
+        crash ((List.range v).foldl (fun s _ => (verifyHead T s).1) s1)
+      match cands.find? (fun c => stateLine d.decls c [] == want) with
+      | some c => ({ d with st := some c }, stateLine d.decls c [])
+      | none => ({ d with st := some s0 }, stateLine d.decls s0 [])
+    | _, _ => (d, "bad-op")
+  | ["requeued", m, o] => C01.step d ["scan", m, o]
+  | ["consts"] =>
+    (d, s!"mel={maxEpochLength} expired={Gen.Chain.EXPIRED_EPOCH} bdw={Gen.Chain.BLOCK_DOWNLOAD_WINDOW}")
+  | _ => C01.step d ts
+
+def main (_args : List String) : IO UInt32 := runLines ({} : St) step
 end CkbVerif.Driver.C08
